@@ -2,7 +2,7 @@
     Only statements; each is closed by a lemma of Evm/JournalProofs.v or Evm/SupplyProofs.v. *)
 From Coq Require Import ZArith List.
 From stdpp Require Import gmap.
-From HV Require Import Evm.ExecModel Evm.JournalProofs Evm.SupplyProofs Evm.Witnesses.
+From HV Require Import Evm.ExecModel Evm.JournalProofs Evm.SupplyProofs Evm.ConservationProofs Evm.LazyProofs Evm.Witnesses.
 Local Open Scope Z_scope.
 
 (** The journal is a correct undo log: for ANY sequence of cache mutations (balance
@@ -40,6 +40,17 @@ Theorem C05_failed_pure_frame_leaves_no_trace :
     snd r = Fail -> fst (fst r) = W /\ obs_eq W (snd (fst r)) D.
 Proof. exact pure_failed_call_no_trace. Qed.
 Print Assumptions C05_failed_pure_frame_leaves_no_trace.
+
+(** The theorems above are stated for caches in which the existing accounts are loaded
+    ([wf]); the real StateDB loads lazily.  That makes no difference: a pure program run
+    from any cache proceeds in lockstep — same outcomes, same journal, same dirty set,
+    equal objects wherever the lazy cache has one — with the run from the cache that has
+    further existing accounts pre-loaded. *)
+Theorem C05_lazy_loading_is_irrelevant_for_pure_code :
+  forall i, pure i = true -> forall order o self W D D', sim W D D' ->
+    lock W (exec_instr order o self i (W, D)) (exec_instr order o self i (W, D')).
+Proof. exact pure_instr_lock. Qed.
+Print Assumptions C05_lazy_loading_is_irrelevant_for_pure_code.
 
 (** A transaction that ultimately fails changes nothing (ApplyTransaction runs on a
     cache context that is written back only on success; fee and nonce are handled by
